@@ -119,6 +119,29 @@ def real_generate(sel: list[str], prefix: str, target: Path, workdir: Path | Non
     return target.read_text("utf8")
 
 
+def occurrences_in(path: Path) -> dict[str, set]:
+    """For every dispatchable node class: the (line, column) of the nodes a check subscribed to that class is handed,
+    recorded with one probe check per class through the real visitor (a base class such as FuncItem gets its subclasses' nodes)."""
+    from collections import defaultdict
+
+    import refurb.main as rmain
+    from refurb.settings import Settings
+    from refurb.visitor import METHOD_NODE_MAPPINGS
+    occ: dict[str, set] = defaultdict(set)
+    checks = defaultdict(list)
+    for cls in set(METHOD_NODE_MAPPINGS.values()):
+        def probe(name):
+            return lambda node, errors: occ[name].add((node.line, node.column))
+        checks[cls].append(probe(cls.__name__))
+    orig = rmain.load_checks
+    rmain.load_checks = lambda settings: checks
+    try:
+        rmain.run_refurb(Settings(files=[str(path)], quiet=True))
+    finally:
+        rmain.load_checks = orig
+    return dict(occ)
+
+
 def kinds_in(path: Path) -> set[str]:
     """Node classes that occur in a file, recorded with one probe check per dispatchable class through the real visitor."""
     from collections import defaultdict
@@ -175,6 +198,15 @@ def run(ctx: Ctx) -> None:
     # names one of which contains the other (NameExpr / NamedTupleExpr, Var / TypeVarExpr, TupleExpr / NamedTupleExpr ...): always generated
     sels += [p for p in pairs if p[0] in p[1] or p[1] in p[0]]
     sels += [sorted([a, b2, c]) for a, b2 in pairs if a in b2 or b2 in a for c in names[:1] if c not in (a, b2)]
+    # classes related by inheritance (a base class with each non-empty set of its subclasses): always generated
+    import mypy.nodes as _N0
+    cls_of = {n: getattr(_N0, n) for n in names if isinstance(getattr(_N0, n, None), type)}
+    for base_, bc in cls_of.items():
+        subs = sorted(n for n, c in cls_of.items() if n != base_ and issubclass(c, bc))
+        for r_ in range(1, min(len(subs), 3) + 1):
+            for combo in itertools.combinations(subs, r_):
+                if len(subs) <= 4 or r_ == 1:
+                    sels.append(sorted([base_, *combo]))
     sels += pairs if ctx.tier == "thorough" else rng.sample(pairs, 120)
     sels += [sorted(rng.sample(names, rng.randrange(3, 9))) for _ in range(ctx.budget(30, 300))]
     td = Path(tempfile.mkdtemp(prefix="c19-"))
@@ -282,7 +314,13 @@ def run(ctx: Ctx) -> None:
         probe = VERIF / "corpus" / "C04" / "kitchen.py"
         present = kinds_in(probe)            # the node classes the probe file really contains (a selection of other classes has nothing to fire on)
         ctx.extra["probe_file_node_classes"] = len(present)
-        for modname, sel, prefix, nid in rng.sample(loadable, min(len(loadable), ctx.budget(6, 40))):
+        occ = occurrences_in(probe)
+        # selections that put a base class next to (some of) its subclasses: what the base class is handed must not depend on the company
+        import mypy.nodes as _N
+        related = [(m_, s_, p_, n_) for m_, s_, p_, n_ in loadable
+                   if any(a != b_ and isinstance(getattr(_N, a, None), type) and isinstance(getattr(_N, b_, None), type) and issubclass(getattr(_N, a), getattr(_N, b_)) for a in s_ for b_ in s_)]
+        ctx.count("selections-with-a-class-and-its-base", len(related))
+        for modname, sel, prefix, nid in related[: ctx.budget(6, 40)] + rng.sample(loadable, min(len(loadable), ctx.budget(6, 40))):
             rc, out, err = L.cli([str(probe), "--quiet", "--disable-all", "--enable", f"{prefix}{nid}", "--load", modname], cwd=str(td),
                                  env_extra={"PYTHONPATH": f"{td}:{L.ENV['PYTHONPATH']}"})
             n = sum(1 for l in out.splitlines() if f"[{prefix}{nid}]" in l)
@@ -291,6 +329,21 @@ def run(ctx: Ctx) -> None:
             if not L.clean_verdict(rc, out, err) or (n == 0 and set(sel) & present):
                 ctx.report("gen:does-not-fire", f"the generated check for {sel} loaded with --load reports {n} diagnostics on a file with every node kind (exit {rc})",
                            {"selection": sel, "stdout": out[-300:], "stderr": err[-500:]})
+                continue
+            # ... and it fires on exactly the nodes of the selected classes (positions as mypy gives them; the template reports the node itself)
+            got_pos = set()
+            for l in out.splitlines():
+                m_ = re.match(rf".*?:(\d+):(\d+) \[{prefix}{nid}\]", l)
+                if m_:
+                    got_pos.add((int(m_.group(1)), int(m_.group(2)) - 1))
+            want_pos = {q for q in set().union(*[occ.get(c, set()) for c in sel]) if q[0] >= 1} if sel else set()      # nodes mypy synthesises carry no position
+            if got_pos != want_pos:
+                missing, extra_ = sorted(want_pos - got_pos)[:5], sorted(got_pos - want_pos)[:5]
+                by_cls = {c: len(occ.get(c, set())) for c in sel}
+                ctx.report("gen:fires-on-other-nodes" if extra_ and not missing else "gen:misses-nodes",
+                           f"the generated check for {sel} reports at {len(got_pos)} positions of the probe file; nodes of the selected classes sit at {len(want_pos)} ({by_cls}); missing {missing}, unexpected {extra_}",
+                           {"selection": sel, "nodes_per_class": by_cls, "missing": missing, "unexpected": extra_, "file": str(probe),
+                            "cmd": f"refurb {probe.name} --disable-all --enable {prefix}{nid} --load {modname}"})
     finally:
         shutil.rmtree(td, ignore_errors=True)
         for k in [k for k in sys.modules if k.startswith("c19_g")]:
